@@ -44,9 +44,11 @@ func funcArraySum(ctx *Context, this *VMValue, params []*VMValue) *VMValue {
 
 	isAllInt := true
 	sumNum := float64(0)
+	sumInt := IntType(0) // 全是整数时按整数累加: 经过 float64 会丢掉 2^53 以上的低位
 	for _, i := range arr.List {
 		switch i.TypeId {
 		case VMTypeInt:
+			sumInt += i.MustReadInt()
 			sumNum += float64(i.MustReadInt())
 		case VMTypeFloat:
 			isAllInt = false
@@ -55,7 +57,7 @@ func funcArraySum(ctx *Context, this *VMValue, params []*VMValue) *VMValue {
 	}
 
 	if isAllInt {
-		return NewIntVal(IntType(sumNum))
+		return NewIntVal(sumInt)
 	} else {
 		return NewFloatVal(sumNum)
 	}
